@@ -6,6 +6,19 @@ package replication
 
 // ---- C16: the applier never switches a real engine (*engine.EngineFacade) out of read-only mode: the
 // SetReadOnly fallbacks are reachable only for engines without the internal bypass methods.
+// The apply path is chosen from the engine's mode at the time of THIS call (the engine is asked inside Apply, every
+// time, and the answer decides): an entry is never sent down the client path - which a read-only engine refuses - on
+// the strength of an earlier answer, so a node that became a replica keeps applying what it receives.
+//@ func (*EngineApplier).Apply
+//@   requires e != nil && entry != nil && e.engine != nil
+//@   ensures[C16] true
+//@   ghost entry: e.asked = false
+//@   ghost after call .IsReadOnly#1: e.answer = result
+//@   ghost after call .IsReadOnly#1: e.asked = true
+//@   check[C16] before call (*EngineApplier).applyInReadOnlyMode#1: e.asked && e.answer
+//@   check[C16] before call (*EngineApplier).applyInNormalMode#1: e.asked ==> !e.answer
+//@ ghost field (*EngineApplier) asked bool
+//@ ghost field (*EngineApplier) answer bool
 //@ func (*EngineApplier).applyInReadOnlyMode
 //@   requires e != nil && entry != nil && e.engine != nil
 //@   check[C16] before call .SetReadOnly#1: !typeIs(e.engine, "*engine.EngineFacade")
